@@ -288,6 +288,30 @@ struct checked_buffer
     }
 };
 
+// ---------------------------------------------------------------- a custom lexer whose answers are dictated by the input
+// byte b in 0x40..0x7f answers (term index, length) = ((b - 0x40) / 4, (b - 0x40) % 4 + 1); any other byte, an index
+// that is not a term, or a length beyond the end of the input = "no term" (default recognized_term).  Every call is
+// logged with the offset it was asked at and the source point it was given.
+template<int NTerms>
+struct byte_lexer
+{
+    template<typename Iterator, typename ErrorStream>
+    ctpg::recognized_term match(ctpg::match_options, ctpg::source_point sp, Iterator start, Iterator end, ErrorStream&)
+    {
+        auto& L = tl_log;
+        long avail = 0;
+        for (Iterator i = start; !(i == end); ++i) ++avail;
+        long off = long(L.base_len) - avail;
+        { Event e; e.k = "lexcall"; e.a = { off, long(sp.line), long(sp.column), avail }; L.add(std::move(e)); }
+        if (avail == 0) { Event e; e.k = "lexcall_at_end"; L.add(std::move(e)); return ctpg::recognized_term{}; }
+        unsigned char b = (unsigned char)*start;
+        if (b < 0x40 || b > 0x7f) return ctpg::recognized_term{};
+        int idx = (b - 0x40) / 4, len = (b - 0x40) % 4 + 1;
+        if (idx >= NTerms || len > avail) return ctpg::recognized_term{};
+        return ctpg::recognized_term(ctpg::size16_t(idx), size_t(len));
+    }
+};
+
 // ---------------------------------------------------------------- job / trace plumbing
 struct Job
 {
@@ -605,7 +629,7 @@ struct access
             o += ']';
         }
         o += "],\"lexer\":";
-        if constexpr (P::generate_lexer) dump_dfa(p.lexer_sm, o); else o += "null";
+        if constexpr (P::generate_lexer) dump_dfa(p.lexer_sm, o); else o += "[]";      // (the TLC JSON reader has no null)
         o += "}\n";
     }
 
